@@ -15,9 +15,15 @@ function it hands its bound methods to) the AST of its body is abstracted into
                                                                        # try body is read afterwards
                  or the inline form `rsp = send(req); if rsp.completion_code == K: ...; continue
                  ... else: check_completion_code(rsp.completion_code)`
-      primitive  `send_message` / `send_message_with_name` themselves (bodies are matched
-                 against the expected statements; a deviation aborts generation)
+      primitive  `send_message` / `send_message_with_name` / `raw_command` themselves (bodies are
+                 matched against the expected statements; a deviation aborts generation)
+      transport  uses `self.interface` / `self.session` only through open / close /
+                 is_ipmc_accessible / establish (no request-response exchange at message level,
+                 hence no completion code reaches it) and issues no request
       other      anything else -- fail closed, with the reason
+  * `own`: the handler kinds found in the operation's own body (`kinds` also has the ones
+    inherited from callees): an operation with own handlers is a *leaf* that needs a model,
+    one without is a composition of its callees
   * a skeleton `Sk` (skip / send m / call op / seq / alt / rep / stop) over-approximating the
     requests it can issue (validated against the real request traces by the C08 run).
 
@@ -58,7 +64,10 @@ HANDLER_PLACES = {
 HANDLER_KINDS = ['fruBackoff', 'hpmWait', 'skipInvalidSelector', 'restartOnCancel', 'selBackoff',
                  'sdrChunk', 'sdrBackoff', 'clearRenew']
 
-SHAPES = ['checked', 'nosend', 'loop', 'primitive', 'other']
+SHAPES = ['checked', 'nosend', 'loop', 'primitive', 'transport', 'other']
+
+# what may be done with self.interface / self.session without exchanging an IPMI message
+TRANSPORT_CALLS = {'interface': ('open', 'close', 'is_ipmc_accessible'), 'session': ('establish', 'close')}
 
 
 def key_of(name):
@@ -166,10 +175,11 @@ class Analyzer(object):
             if isinstance(sub, ast.Attribute) and isinstance(sub.value, ast.Name) and sub.value.id == 'self':
                 callees.add(sub.attr)
         e = {'name': label, 'public': public, 'qual': fn.qual, 'shape': 'other', 'reason': '',
-             'sk': ('skip',), 'kinds': [], 'consts': {}, 'key': key, 'arity': arity,
+             'sk': ('skip',), 'kinds': [], 'own': [], 'consts': {}, 'key': key, 'arity': arity,
              'varargs': bool(a.vararg or a.kwarg), 'callees': sorted(callees)}
         try:
-            if fn.qual in ('pyipmi.Ipmi.send_message', 'pyipmi.Ipmi.send_message_with_name'):
+            if fn.qual in ('pyipmi.Ipmi.send_message', 'pyipmi.Ipmi.send_message_with_name',
+                           'pyipmi.Ipmi.raw_command'):
                 self._check_primitive(fn)
                 e['shape'] = 'primitive'
                 e['sk'] = ('skip',)
@@ -178,8 +188,13 @@ class Analyzer(object):
                 sk = fa.block(fn.node.body)
                 e['sk'] = sk
                 e['kinds'] = sorted(set(fa.kinds))
+                e['own'] = sorted(set(fa.own))
                 e['consts'] = fa.consts
-                if fa.kinds:
+                if fa.transport:
+                    if fa.kinds or fa.sends or fa.calls_sending:
+                        raise Other('direct use of self.interface / self.session next to message exchanges')
+                    e['shape'] = 'transport'
+                elif fa.kinds:
                     e['shape'] = 'loop'
                 elif fa.sends == 0 and not fa.calls_sending:
                     e['shape'] = 'nosend'
@@ -200,6 +215,11 @@ class Analyzer(object):
     def _check_primitive(self, fn):
         body = [s for s in fn.node.body if not (isinstance(s, ast.Expr) and isinstance(s.value, ast.Constant))]
         dump = [ast.dump(s) for s in body]
+        if fn.qual.endswith('raw_command'):
+            want = ["return self.interface.send_and_receive_raw(self.target, lun, netfn, raw_bytes)"]
+            if dump != [ast.dump(ast.parse(w).body[0]) for w in want]:
+                raise TieBroken('%s no longer hands the raw response to its caller' % fn.qual)
+            return
         if fn.qual.endswith('send_message_with_name'):
             want = [
                 "req = create_request_by_name(name)",
@@ -241,6 +261,8 @@ class FnAnalysis(object):
         self.sends = 0
         self.calls_sending = False
         self.kinds = []
+        self.own = []                   # handler kinds in this body (not inherited)
+        self.transport = False          # uses self.interface / self.session without exchanging messages
         self.consts = {}
         self.params = [a.arg for a in fn.node.args.args]
         for k, v in binding.items():
@@ -282,6 +304,12 @@ class FnAnalysis(object):
             return
         if isinstance(node, ast.Call):
             self._call(node, out)
+            return
+        if isinstance(node, ast.Compare) and len(node.ops) == 1 and isinstance(node.ops[0], (ast.Is, ast.IsNot)) \
+                and _dotted(node.left) in ('self.session', 'self.interface') \
+                and isinstance(node.comparators[0], ast.Constant) and node.comparators[0].value is None:
+            # `if self.session is not None:` exchanges nothing
+            self.transport = True
             return
         if isinstance(node, ast.Name) and node.id == 'self' :
             raise Other('bare `self` escapes')
@@ -348,6 +376,15 @@ class FnAnalysis(object):
             self._use(ent, out)
             return
         if isinstance(f, ast.Attribute) and _dotted(f) and _dotted(f).startswith('self.'):
+            parts = _dotted(f).split('.')
+            if len(parts) == 3 and parts[2] in TRANSPORT_CALLS.get(parts[1], ()):
+                self.transport = True
+                for a in call.args:
+                    if not (isinstance(a, ast.Attribute) and _dotted(a) == 'self.target'):
+                        self._expr(a, out)
+                for k in call.keywords:
+                    self._expr(k.value, out)
+                return
             raise Other('direct use of %s' % _dotted(f))
         # a bound function parameter: reserve_fn(), get_fn(...), clear_fn(...), send_fn(req)
         if isinstance(f, ast.Name) and f.id in self.binding and self.binding[f.id][0] == 'method':
@@ -395,11 +432,13 @@ class FnAnalysis(object):
             raise Other('calls %s, which is `other` (%s)' % (ent['name'], ent['reason']))
         if ent['shape'] == 'primitive':
             raise Other('calls the primitive %s in an unrecognised form' % ent['name'])
+        if ent['shape'] == 'transport':
+            self.transport = True
         if ent['shape'] == 'loop':
             self.kinds.extend(ent['kinds'])
             for k, v in ent['consts'].items():
                 self.consts.setdefault(k, v)
-        if ent['shape'] != 'nosend':
+        if ent['shape'] not in ('nosend', 'transport'):
             self.calls_sending = True
         out.append(('call', ent['index']))
 
@@ -504,6 +543,15 @@ class FnAnalysis(object):
                     self.reqvars[s.targets[0].id] = a[0].value
                     return ('skip',), 0
                 raise Other('create_request_by_name with a computed name')
+            # req = <obj>.to_request(req): the filled-in request comes back (same class; the class
+            # of what is really sent is in the request trace the skeleton is validated against)
+            if len(s.targets) == 1 and isinstance(s.targets[0], ast.Name) and s.targets[0].id in self.reqvars \
+                    and isinstance(s.value, ast.Call) and isinstance(s.value.func, ast.Attribute) \
+                    and s.value.func.attr == 'to_request' and not s.value.keywords \
+                    and len(s.value.args) == 1 and isinstance(s.value.args[0], ast.Name) \
+                    and s.value.args[0].id == s.targets[0].id \
+                    and not (isinstance(s.value.func.value, ast.Name) and s.value.func.value.id == 'self'):
+                return self.expr(s.value.func.value), 0
             for t in s.targets:
                 for sub in ast.walk(t):
                     if isinstance(sub, ast.Name) and sub.id in self.reqvars and isinstance(sub.ctx, ast.Store):
@@ -555,6 +603,7 @@ class FnAnalysis(object):
                 raise Other('completion-code chain does not end in check_completion_code')
             break
         self.kinds.append(kind)
+        self.own.append(kind)
         self.consts.setdefault(kind, sorted(codes))
         acc = ('skip',)
         for b in reversed(branches):
@@ -603,6 +652,7 @@ class FnAnalysis(object):
                     raise Other('after the handled code, %s from the failed exchange is used again' % stale)
             kind = self._place()
             self.kinds.append(kind)
+            self.own.append(kind)
             self.consts.setdefault(kind, sorted(codes))
             alts.append(self.block(test.body))
         acc = ('skip',)
@@ -688,16 +738,16 @@ def generate():
     entries, msg_index = analyze()
     out = ['/- GENERATED by harness/translate/api.py from the AST of pyipmi.Ipmi and the helpers it',
            '   calls.  Do not edit: rewritten on every check run. -/',
-           'import PyIpmi.Model.Prog',
+           'import PyIpmi.Model.ProgMore',
            'namespace PyIpmi.Gen.ApiShapes',
            'open PyIpmi.Prog',
            '',
            'inductive Shape where',
-           '  | checked | nosend | loop | primitive | other',
+           '  | checked | nosend | loop | primitive | transport | other',
            '  deriving DecidableEq, Repr, Inhabited',
            '',
            '/-- One operation: numeric name key (crc32), public?, number of parameters, shape class,',
-           'skeleton, handler kinds used (indices into `handlerKinds`). -/',
+           'skeleton, handler kinds used (indices into `handlerKinds`), handler kinds in its own body. -/',
            'structure Op where',
            '  key : Nat',
            '  pub : Bool',
@@ -705,6 +755,7 @@ def generate():
            '  shape : Shape',
            '  sk : Sk',
            '  kinds : List Nat',
+           '  own : List Nat',
            '  deriving Repr, Inhabited',
            '',
            '/-- ' + ', '.join('%d = %s' % (i, k) for i, k in enumerate(HANDLER_KINDS)) + ' -/',
@@ -716,9 +767,10 @@ def generate():
         names.append(nm)
         fn_arity = e.get('arity', 0)
         out.append('/-- %s%s -/' % (e['name'], (' — ' + e['reason']) if e['reason'] else ''))
-        out.append('def %s : Op := ⟨%d, %s, %d, .%s, %s, [%s]⟩' % (
+        out.append('def %s : Op := ⟨%d, %s, %d, .%s, %s, [%s], [%s]⟩' % (
             nm, key_of(e['name']), 'true' if e['public'] else 'false', fn_arity, e['shape'], _sk(e['sk']),
-            ', '.join(str(HANDLER_KINDS.index(k)) for k in e['kinds'])))
+            ', '.join(str(HANDLER_KINDS.index(k)) for k in e['kinds']),
+            ', '.join(str(HANDLER_KINDS.index(k)) for k in e['own'])))
     out.append('')
     out.append('def table : List Op := [' + ', '.join(names) + ']')
     out.append('')
@@ -732,6 +784,52 @@ def generate():
     for k in HANDLER_KINDS:
         out.append('def codes_%s : List Nat := [%s]' % (k, ', '.join(str(c) for c in consts.get(k, []))))
     out.append('')
+    lc = loop_consts()
+    sel, sdr = lc['sel'], lc['sdr']
+    out.append('/-- get_sel_entry: ENTIRE_RECORD, fall-back length, record length, decrement, shrink code -/')
+    out.append('def selCfg : SelCfg := ⟨%d, %d, %d, %d, %d⟩' % (
+        sel['entire'], sel['full'], sel['recLen'], sel['step'], sel['ccShrink']))
+    out.append('/-- get_and_clear_sel_entry: the code that restarts; sel_entries: START / END record id -/')
+    out.append('def sel_cancel : Nat := %d' % sel['ccCancel'])
+    out.append('def sel_first : Nat := %d' % sel['first'])
+    out.append('def sel_last : Nat := %d' % sel['last'])
+    out.append('/-- get_sdr_data_helper: header length, max_req_len, its decrement, retry, shrink code -/')
+    out.append('def sdrCfg : SdrCfg := ⟨%d, %d, %d, %d, %d⟩' % (
+        sdr['hdrLen'], sdr['maxReqLen'], sdr['reqLenDec'], sdr['dataRetry'], sdr['cantReturn']))
+    out.append('/-- default retry of get_sdr_chunk_helper and of clear_repository_helper; first / END id of the SDR listings -/')
+    out.append('def sdr_chunkRetry : Nat := %d' % sdr['chunkRetryDefault'])
+    out.append('def clear_retry : Nat := %d' % sdr['clearRetryDefault'])
+    out.append('def sdr_first : Nat := %d' % sdr['repoListStart'])
+    out.append('def sdr_last : Nat := %d' % sdr['lastId'])
+    out.append('')
     out.append('end PyIpmi.Gen.ApiShapes')
     lean.write_if_changed(OUT, '\n'.join(out) + '\n')
     return entries, msg_index
+
+
+SDR_DEFAULTS = {'hdrLen': 5, 'maxReqLen': 20, 'reqLenDec': 4, 'dataRetry': 20, 'cantReturn': 0xCA,
+                'chunkRetryDefault': 5, 'clearRetryDefault': 5, 'repoListStart': 0, 'lastId': 0xFFFF}
+LOOP_CONST_NOTES = []
+
+
+def loop_consts():
+    """Numeric constants of the SEL / SDR transfer loops, re-read from the source by the extractors of
+    C10-C13 (harness/translate/loops10.py, loops11.py).  Where the source has left THEIR grammar the
+    pinned values are used and the fact is noted: the C08 correspondence run compares the models with
+    the code on every fault script, so a changed constant shows up there."""
+    from . import loops10, loops11
+    del LOOP_CONST_NOTES[:]
+    try:
+        sel = loops10.extract(need=('sel',))['sel']
+    except TieBroken as e:
+        sel = dict(loops10.DEFAULTS['sel'])
+        LOOP_CONST_NOTES.append('SEL loop constants not re-read (%s): pinned values used' % str(e)[:100])
+    sdr = dict(SDR_DEFAULTS)
+    try:
+        d = loops11.extract()
+        for k in sdr:
+            if k in d:
+                sdr[k] = d[k]
+    except TieBroken as e:
+        LOOP_CONST_NOTES.append('SDR loop constants not re-read (%s): pinned values used' % str(e)[:100])
+    return {'sel': sel, 'sdr': sdr}
